@@ -28,6 +28,8 @@ EXPR_KINDS = {
     "Product2": Prod(X, Y), "Quotient": Quot(X, C(3)), "FloorDiv": FDiv(X, C(2)),
     "Remainder": Rem(X, C(3)), "Power": Pow(X, C(2)), "Call": Call(V("f"), X),
     "Subscript": Sub(V("arr"), X),
+    "Cmp<": ("Comparison", X, ("str", "<"), Y), "Cmp>=": ("Comparison", X, ("str", ">="), Y),
+    "Cmp==": ("Comparison", X, ("str", "=="), Y),
 }
 # composite operands that are falsy (their value is provably zero), and truthy ones that contain
 # a falsy term: the zero / one short-cuts of the operators test truth values
@@ -655,7 +657,14 @@ class C03(Check):
             return r
         tspec = derationalise(to_spec(tree))
         r.keys.append((m, k, other))
-        for env in envs():
+        all_envs = list(envs())
+        if m.startswith("not_") and k.startswith("Cmp"):
+            # unordered operands: not (nan < 1) is True, nan >= 1 is False
+            for vx, vy in ((float("nan"), 1.0), (1.0, float("nan")), (float("nan"), float("nan"))):
+                e_ = base_env()
+                e_["x"], e_["y"], e_["abs"] = vx, vy, abs
+                all_envs.append(e_)
+        for env in all_envs:
             try:
                 a, b = plain(k, env), plain(other, env)
             except ZeroDivisionError:
